@@ -453,6 +453,15 @@ func C09(x *Ctx) []Violation {
 	// (d) the emitted self-check instantiation is itself valid Go
 	if !x.Case.Cfg.SkipEnsure && d.File != nil {
 		for _, decl := range d.File.Decls {
+			if fd, isFunc := decl.(*ast.FuncDecl); isFunc && fd.Recv == nil && fd.Name.Name == "_" {
+				// self-check written inside a blank generic function
+				for _, te := range d.TypeErrs {
+					if te.Pos >= fd.Pos() && te.Pos <= fd.End() && d.Fset.Position(te.Pos).Filename == "moq_output.go" {
+						bad("self-check-valid", "the emitted self-check (generic function form) is not valid Go: %s", te.Msg)
+					}
+				}
+				continue
+			}
 			gd, ok := decl.(*ast.GenDecl)
 			if !ok || gd.Tok != token.VAR {
 				continue
